@@ -161,7 +161,7 @@ func (f *gofile) mk(t *Type, tok string, constant bool, depth int) string {
 				if d.Pkg != f.pkg && !exported(fl.Name) {
 					continue
 				}
-				if IsInterface(r.S, ft) && r.Implementer(ft) == nil {
+				if IsInterface(r.S, ft) && r.Implementer(ft) == nil && len(IfaceMethods(r.S, ft)) > 0 {
 					continue
 				}
 				if constant && !r.constOK(fl.T) {
@@ -173,6 +173,10 @@ func (f *gofile) mk(t *Type, tok string, constant bool, depth int) string {
 			return f.ty(t) + "{" + strings.Join(parts, ", ") + "}"
 		case "iface":
 			c := r.Implementer(t)
+			if c == nil && len(IfaceMethods(r.S, t)) == 0 {
+				// an empty interface holds the token itself
+				return f.ty(t) + "(" + tok + ")"
+			}
 			if c == nil {
 				return "*new(" + f.ty(t) + ")"
 			}
